@@ -2,7 +2,7 @@ from lib.pipeline import Prop
 PROP = Prop(
     "C21",
     models=[("pkg/kgo/broker.go", ["broker.handleReq", "brokerCxn.requestAPIVersions", "brokerCxn.init", "brokerCxn.sasl",
-                                   "brokerVersions.maxVersion", "brokerVersions.minVersion"]),
+                                   "brokerVersions.maxVersion", "brokerVersions.minVersion", "broker.storeVersions", "broker.loadVersions"]),
             ("pkg/kversion/kversion.go", ["Versions.LookupMaxKeyVersion", "Versions.HasKey", "Versions.SetMaxKeyVersion"])],
     rule="one case = one client configuration (kgo.MaxVersions / kgo.MinVersions incl. nil, default, key missing) against one scripted "
          "ApiVersions table (kfake's own table, optionally capped by kfake.MaxVersions, with the focal key advertised as an arbitrary "
@@ -11,29 +11,56 @@ PROP = Prop(
          "a polled fetch, or the connection-setup requests themselves (ApiVersions, SASLHandshake, SASLAuthenticate). Observed: the header "
          "version of every request frame that reaches the broker side, or the error class when nothing is written. Generated: a grid of every "
          "bound below / at / above a pivot, missing and -1 on selected kinds; every key of the codec with random placements; random placements "
-         "on all kinds. non-trivial = not (focal request written at the client's max with the key advertised). distinct = distinct op lines.",
+         "on all kinds. A `seq` case = one client whose broker objects see the scripted ApiVersions table CHANGE between connections (rolling "
+         "downgrade / upgrade: max lowered or raised, min raised, key removed / added / repeated, Produce key removed): requests straight "
+         "into handleReq of the seed broker object or of node 0 (Metadata, ListOffsets, FindCoordinator, OffsetFetch, InitProducerID, "
+         "DescribeConfigs, ListGroups, DescribeGroups, DescribeCluster, Heartbeat, OffsetCommit on the normal connection; Produce; Fetch; "
+         "JoinGroup / SyncGroup on the group connection; CreateTopics / DeleteTopics on the slow one), produced records and a polling "
+         "consumer, before and after the change, landing on new connections (every connection cut by the broker, the connection cut "
+         "under the request, first use of another connection class) and on old ones. Observed in wire order per broker object (told "
+         "apart by the dialled host): every delivered connection-setup ApiVersions table, every request frame with its header version and "
+         "the table advertised on ITS connection, every version error that wrote nothing. The model replays that history (stored cell of "
+         "the broker object) and must give the same version / error class for every frame; the Spec judges every frame against the most "
+         "recent table delivered to its broker object. non-trivial = not (focal request written at the client's max with the key "
+         "advertised); a seq case is non-trivial when a request follows a changed table on its broker object. distinct = distinct op lines.",
     trusted_base=["hand-written Lean model of the version clamp of broker.handleReq, of the table loading and first version of requestAPIVersions, of the "
                   "SASL handshake/authenticate versions and of the two pin schedules reached (findCoordinatorSharder, offsetFetchSharder), tied by "
-                  "differential runs observed at the wire of a real kfake",
+                  "differential runs observed at the wire of a real kfake; of the per-broker-object table cell (storeVersions in every connection's "
+                  "init, loadVersions in every clamp), tied by the seq cases",
                   "the scripted ApiVersions answers (cluster.ControlKey(18)) and the frame reader of harness/sim",
                   "per-frame bounds of non-focal frames are the harness's own configuration, printed with the frame",
+                  "seq cases: the attribution of a connection to a broker object (n-th serialised dial = n-th accepted connection; seed dialled as "
+                  "127.0.0.1, node 0 as localhost) and the wire order of events as appended under one mutex by the broker-side frame reader",
                   "Lean compiler/runtime for the driver"],
     assumptions=["versions are non-negative where the API guarantees it: req.MaxVersion(), the literal pins of client.go, values stored by SetMaxKeyVersion",
-                 "a connection-setup request that is skipped (no SASLHandshake without an advertised key) is not a failed request"],
+                 "a connection-setup request that is skipped (no SASLHandshake without an advertised key) is not a failed request",
+                 "the broker's advertised range at a moment is that of the MOST RECENT ApiVersions response its broker object received on any of its "
+                 "connections (the code keeps one table per broker object, not per connection; handleReqs serialises connects and clamps of one "
+                 "object): a request on an older connection of the object is judged against the newer table, not against the one that "
+                 "connection was told"],
     partial="FULL statement (every written request uses the highest version within all bounds, else an error and nothing written) is FALSE of the current code in "
             "three classes, each refuted in Lean by a decided witness and reported on the real client under a stable key: key-missing-without-produce-key "
             "(clamp_spec_full_false), init-apiversions-unclamped and sasl-version-is-broker-max (setup_full_false). Proved instead: clamp_ok_iff_partial / "
             "clamp_err_iff_partial / clamp_spec_partial under ProduceKnown, clamp_never_outside unconditionally, initApi_first_partial, "
-            "saslHandshake_partial, saslAuth_partial. The pin schedule of the sharders is modelled and compared, not proved.",
+            "saslHandshake_partial, saslAuth_partial. The pin schedule of the sharders is modelled and compared, not proved. Across connections: "
+            "request_uses_latest_table (every request of every sequence of connects with arbitrary tables and requests is clamped against the table "
+            "of the latest successful ApiVersions exchange of its broker object), written_within_latest_advertised, absent_key_fails_on_latest, "
+            "never_nil_versions unconditionally; trace_spec_partial (the executable Spec on the whole history) under the same ProduceKnown "
+            "restriction on every received table.",
 )
 MANIFEST = {
     "text": "Lean theorems for all integers: the version clamp of broker.handleReq returns ok v exactly when v is the highest version within the client's "
             "codec max, the internal pin, the broker's advertised [min,max], the user's MaxVersions and MinVersions, and an error (nothing written) exactly "
             "when no such version exists or the key is unknown to the broker's table or the user's MaxVersions — provided the table has the Produce key or "
             "the request's key (the code recognises a loaded table by the Produce key); a written version never leaves any bound the code consults; "
-            "ApiVersions loading keeps per key the advertised range. The unconditional statement and the same statement for the connection-setup "
+            "ApiVersions loading keeps per key the advertised range. For every sequence of connections (each answered with an arbitrary table) and "
+            "requests of one broker object, by induction: every request is clamped against the table of the MOST RECENT successful ApiVersions "
+            "exchange of the object on any of its connections, a written version lies within that table's range, a key absent from it fails and "
+            "nothing is written, the clamp never meets a nil table, and the executable Spec holds on the whole wire history. The unconditional statement and the same statement for the connection-setup "
             "requests (ApiVersions, SASLHandshake, SASLAuthenticate) are refuted by decided witnesses; those classes are reported as findings. The model is "
-            "tied to the code by running the real client against a real kfake with scripted ApiVersions answers and reading every request header at the wire.",
+            "tied to the code by running the real client against a real kfake with scripted ApiVersions answers — also answers that change between the "
+            "connections of one client (reconnects after cuts, first use of the produce / fetch / group / slow connection) — and reading every "
+            "request header at the wire.",
     "note": "Trusted: Lean kernel; the hand-written model (validated differentially, not verified); the harness's scripted broker and frame reader. "
             "The sharders' pin fallback is compared, not proved. Omitted setup requests are not judged.",
     "technique": "Lean 4 proof (interval characterisation of the clamp against a scan-style executable specification, decided counterexamples for the failing "
